@@ -2,14 +2,14 @@ CONSTANTS
  Tags = {"t1", "t2"}
  Mans = {"m1", "m2"}
  TagOrder <- MCTagOrder
- Procs = {"p1"}
- Confs <- LayForeignFixed
- MaxOps = 3
+ Procs = {"p1", "p2", "p3"}
+ Confs <- OldHead
+ MaxOps = 1
  OpTags = {"t1", "t2"}
  OpMans = {"m1", "m2"}
- OpKinds <- AllKinds
+ OpKinds <- HeadRaceKinds
  UseMutex = TRUE
  FreshPH = TRUE
 SPECIFICATION Spec
-INVARIANTS NoViol Glue Quiescent LayoutGlue WellFormed CacheCoherent GetStable HeadStable
+INVARIANTS HeadStable
 CHECK_DEADLOCK FALSE
